@@ -118,9 +118,10 @@ Definition write_at (off : Z) (d img : bytes) : bytes :=
 Definition write (img : bytes) (m : fmap) (start : Z) : bytes :=
   write_at start (enc_fmap m) img.
 
-(* bytes.Reader.ReadAt into a buffer of [size] bytes *)
+(* bytes.Reader.ReadAt into a buffer of [size] bytes: io.EOF when the offset is
+   at or past the end (even for an empty buffer) or the buffer is not filled *)
 Definition read_at (img : bytes) (off size : Z) : outcome bytes :=
-  if off + size <=? zlen img then Ok (sub off size img) else Err E_EOF.
+  if (off <? zlen img) && (off + size <=? zlen img) then Ok (sub off size img) else Err E_EOF.
 
 Definition nth_area (m : fmap) (i : Z) : option area :=
   if 0 <=? i then nth_error (f_areas m) (Z.to_nat i) else None.
